@@ -345,7 +345,7 @@ Theorem C03_next_run_normal :
                    s' = set_stop s1 false /\ evs = e1 ++ [VRun (loop_alive s1)]) /\
   (mode = 0%nat ->
      exists st e0, l_run_timers (update_time s) beh = (st, e0) /\
-       (stop_flag st = true -> s' = set_stop st false /\ evs = e0 ++ [VRun true]) /\
+       (stop_flag st = true -> s' = set_stop st false /\ evs = e0 ++ [VRun (loop_alive st)]) /\
        (stop_flag st = false ->
           exists s1 e1 rest, iteration st beh 0 = (s1, e1) /\ evs = e0 ++ e1 ++ rest)).
 Proof.
